@@ -217,6 +217,44 @@ func (c *Ctx) optimizerMethods() ([]*ast.FuncDecl, *packages.Package) {
 			}
 		}
 	}
+	// plain functions (and methods of other private types) of the package that the optimizer methods call: code that
+	// was extracted from Optimize is optimizer code as well. The generator (FunctionGenerator methods) is not.
+	info := fg.TypesInfo
+	seen := map[*ast.FuncDecl]bool{}
+	for _, fd := range res {
+		seen[fd] = true
+	}
+	for i := 0; i < len(res) && i < 64; i++ {
+		ast.Inspect(res[i].Body, func(x ast.Node) bool {
+			call, ok := x.(*ast.CallExpr)
+			if !ok {
+				return true
+			}
+			cal := Callee(info, call)
+			if cal == nil || cal.Pkg() != fg.Types {
+				return true
+			}
+			if sig := cal.Type().(*types.Signature); sig.Recv() != nil && isNamed(sig.Recv().Type(), modPath+"/funcGen", "FunctionGenerator") {
+				return true
+			}
+			if d := findFuncDecl(fg, cal); d != nil && d.Body != nil && !seen[d] {
+				// only code that works on AST nodes
+				usesAST := false
+				if d.Type.Params != nil {
+					for _, f := range d.Type.Params.List {
+						if t := info.TypeOf(f.Type); t != nil && (isNamed(t, modPath, "AST") || strings.Contains(t.String(), modPath+".")) {
+							usesAST = true
+						}
+					}
+				}
+				if usesAST {
+					seen[d] = true
+					res = append(res, d)
+				}
+			}
+			return true
+		})
+	}
 	return res, fg
 }
 
